@@ -503,6 +503,13 @@ func preludeSym(l string) string {
 				return rest[:e]
 			}
 		}
+		// ... or about an uninterpreted constant
+		if k := strings.Index(l, " g_"); k >= 0 {
+			rest := l[k+1:]
+			if e := strings.IndexAny(rest, " )"); e > 0 {
+				return rest[:e]
+			}
+		}
 	}
 	return ""
 }
